@@ -890,7 +890,7 @@ func (in *Interp) callBuiltin(caller *frame, callpos token.Pos, fn *ssa.Builtin,
 		}
 		sl, ok := in.sliceFromElemPtr(p, n)
 		if !ok {
-			in.unsupported("unsafe.String of unknown pointer")
+			in.unsupported("unsafe.String of unknown pointer in " + caller.fn.String())
 		}
 		bs := make([]*sym.Term, n)
 		for i := range bs {
